@@ -93,7 +93,7 @@ func c12RunOrder(w *ck.World, order []int, dups []int, ref *refResult) error {
 	if err != nil {
 		return fmt.Errorf("HARNESS: cannot start node: %v", err)
 	}
-	defer n.Stop()
+	defer n.Close()
 	for k, i := range order {
 		if _, err := n.Deliver(i); err != nil {
 			return fmt.Errorf("delivery %d of valid block #%d (height %d, parent #%d) in order %v returned an error: %v", k, i, w.Blocks[i].Block.Height, w.Blocks[i].Parent, order, err)
